@@ -28,7 +28,7 @@ except ImportError:
         yaml = None
 
 from . import __version__ as VERSION
-from .dynamic_typing import ModelMeta, register_datetime_classes, registry
+from .dynamic_typing import ModelMeta, StringSerializableRegistry, register_datetime_classes, registry
 from .generator import MetadataGenerator
 from .models import ModelsStructureType
 from .models.attr import AttrsModelCodeGenerator
@@ -72,6 +72,7 @@ class Cli:
         self.enable_datetime: bool = False  # --datetime
         self.strings_converters: bool = False  # --strings-converters
         self.max_literals: int = -1  # --max-strings-literals
+        self.str_types_registry: StringSerializableRegistry = registry  # --datetime, --disable-str-serializable-types
         self.merge_policy: List[ModelCmp] = []  # --merge
         self.structure_fn: STRUCTURE_FN_TYPE = None  # -s
         self.model_generator: Type[GenericModelCodeGenerator] = None  # -f & --code-generator
@@ -105,11 +106,15 @@ class Cli:
         dict_keys_fields: List[str] = namespace.dict_keys_fields
         preamble: str = namespace.preamble
 
+        # Work on a copy of the default registry: the options of one command line must not leak
+        # into later or concurrent runs in the same process
+        self.str_types_registry = StringSerializableRegistry(*registry.types)
+        self.str_types_registry.replaces = set(registry.replaces)
         # Register optional types first so that a type registered by --datetime can still be disabled by name
         if self.enable_datetime:
-            register_datetime_classes()
+            register_datetime_classes(self.str_types_registry)
         for name in namespace.disable_str_serializable_types:
-            registry.remove_by_name(name)
+            self.str_types_registry.remove_by_name(name)
 
         self.setup_models_data(namespace.model or (), namespace.list or (), parser)
         self.validate(merge_policy, framework, code_generator)
@@ -118,6 +123,7 @@ class Cli:
 
     def run(self):
         generator = MetadataGenerator(
+            str_types_registry=self.str_types_registry,
             dict_keys_regex=self.dict_keys_regex,
             dict_keys_fields=self.dict_keys_fields
         )
